@@ -435,6 +435,8 @@ def facts_failure(prop, tier, seed, t0, e):
 
 
 def write_evidence(prop, tier, seed, ctx, wall, nviol, listed, error=None, mod=None):
+    if '--no-evidence' in sys.argv:          # runs on scratch copies (self-tests, first looks at seeds) never touch the evidence of /repo — not on the failure paths either
+        return
     os.makedirs(os.path.join(VERIF, 'evidence'), exist_ok=True)
     path = os.path.join(VERIF, 'evidence', '%s.json' % prop)
     if ctx is None:
